@@ -407,3 +407,202 @@ fn expr_contexts_for(merged: &RecExpr, root: Id, filter: bool) -> RecExpr {
     }
     out
 }
+
+// ---------------------------------------------------------------------------------------------
+// part "rules-synth": expression rules on synthesised left-hand sides
+
+use proptest::prelude::*;
+use serde::{Deserialize, Serialize};
+
+#[derive(Clone, Debug, Serialize, Deserialize)]
+pub struct SynthCase {
+    /// index of the rule among the expression rules (sorted by name)
+    pub rule: usize,
+    /// leaf choice per pattern variable (index into the leaf pool)
+    pub leaves: Vec<u8>,
+    /// rows of t(a int, b int, c int, p boolean, q boolean, s varchar); None = NULL
+    pub rows: Vec<(Option<i8>, Option<i8>, Option<i8>, Option<bool>, Option<bool>, Option<u8>)>,
+}
+
+pub fn synth_strategy(_ctx: &Ctx) -> impl Strategy<Value = SynthCase> + use<> {
+    let cell = || prop::option::weighted(0.8, -2i8..4);
+    let b = || prop::option::weighted(0.8, any::<bool>());
+    (
+        0usize..400,
+        prop::collection::vec(0u8..24, 6),
+        prop::collection::vec((cell(), cell(), cell(), b(), b(), prop::option::weighted(0.8, 0u8..4)), 1..7),
+    )
+        .prop_map(|(rule, leaves, rows)| SynthCase { rule, leaves, rows })
+}
+
+fn expression_rules() -> Vec<Rewrite> {
+    let mut seen = HashSet::new();
+    let mut v: Vec<Rewrite> = vec![];
+    for (_, rules) in rule_sets() {
+        for r in rules {
+            let Some(p) = r.searcher.get_pattern_ast() else { continue };
+            let root = p.as_ref().last().unwrap();
+            let is_expr = match root {
+                ENodeOrVar::ENode(e) => !is_plan_node(e) && !matches!(e, Expr::List(_)),
+                _ => false,
+            };
+            // only patterns made of scalar operators
+            let scalar_only = p.as_ref().iter().all(|n| match n {
+                ENodeOrVar::ENode(e) => !is_plan_node(e) && !matches!(e, Expr::In(_) | Expr::Exists(_) | Expr::Max1Row(_) | Expr::Avg(_) | Expr::Sum(_) | Expr::Count(_)),
+                _ => true,
+            });
+            if is_expr && scalar_only && seen.insert(r.name.to_string()) {
+                v.push(r);
+            }
+        }
+    }
+    v.sort_by_key(|r| r.name.to_string());
+    v
+}
+
+pub fn test_synth(ctx: &Ctx, case: &SynthCase, st: &mut Stats) -> Verdict {
+    risinglight::verif::reset();
+    let r = block_on(async {
+        let db = MiniDb::new();
+        if !db.run_sql("create table t(a int, b int, c int, p boolean, q boolean, s varchar)", true).await.is_ok() {
+            return fail("setup", "create table failed");
+        }
+        let lit = |v: &Option<String>| v.clone().unwrap_or_else(|| "null".into());
+        let rows: Vec<String> = case
+            .rows
+            .iter()
+            .map(|r| {
+                format!(
+                    "({}, {}, {}, {}, {}, {})",
+                    lit(&r.0.map(|x| x.to_string())),
+                    lit(&r.1.map(|x| x.to_string())),
+                    lit(&r.2.map(|x| x.to_string())),
+                    lit(&r.3.map(|x| x.to_string())),
+                    lit(&r.4.map(|x| x.to_string())),
+                    lit(&r.5.map(|x| format!("'{}'", ["a", "b", "", "ab"][x as usize])))
+                )
+            })
+            .collect();
+        if !db.run_sql(&format!("insert into t values {}", rows.join(", ")), true).await.is_ok() {
+            return fail("setup", "insert failed");
+        }
+        let rules = expression_rules();
+        if rules.is_empty() {
+            return fail("setup", "no expression rules found");
+        }
+        let rule = &rules[case.rule % rules.len()];
+        let tid = db.catalog.get_table_id_by_name("postgres", "t").unwrap();
+        let col = |i: u32| Expr::Column(risinglight::catalog::ColumnRefId::from_table(tid, 0, i));
+        use risinglight::types::DataValue as DV;
+        let pool: Vec<Expr> = vec![
+            col(0), col(1), col(2), col(3), col(4), col(5),
+            Expr::Constant(DV::Int32(0)), Expr::Constant(DV::Int32(1)), Expr::Constant(DV::Int32(-1)), Expr::Constant(DV::Int32(2)), Expr::Constant(DV::Int32(3)),
+            Expr::Constant(DV::Bool(true)), Expr::Constant(DV::Bool(false)), Expr::Constant(DV::Null),
+            Expr::Constant(DV::String("a".into())), Expr::Constant(DV::String("".into())),
+            col(0), col(1), col(3), col(0), col(1), col(2), col(3), col(4),
+        ];
+        // instantiate the pattern: the k-th distinct variable gets leaf leaves[k]; if that is
+        // ill-typed, deterministic variations of the choice are tried
+        let pat = rule.searcher.get_pattern_ast().unwrap();
+        let mut found = None;
+        let mut nvars = 0usize;
+        for attempt in 0..12usize {
+            let mut vars: Vec<egg::Var> = vec![];
+            let mut lhs = RecExpr::default();
+            let mut map: Vec<Id> = vec![];
+            for n in pat.as_ref() {
+                match n {
+                    ENodeOrVar::Var(v) => {
+                        let k = match vars.iter().position(|x| x == v) {
+                            Some(k) => k,
+                            None => {
+                                vars.push(*v);
+                                vars.len() - 1
+                            }
+                        };
+                        // later variables are constants more often (rules with side conditions
+                        // over two constants, e.g. the and-*-fold family)
+                        let raw = case.leaves[k % case.leaves.len()] as usize;
+                        let base = if k >= 1 && raw >= 12 { 6 + raw % 10 } else { raw };
+                        let li = (base + attempt * (5 + k)) % pool.len();
+                        map.push(lhs.add(pool[li].clone()));
+                    }
+                    ENodeOrVar::ENode(e) => {
+                        let e2 = e.clone().map_children(|c| map[usize::from(c)]);
+                        map.push(lhs.add(e2));
+                    }
+                }
+            }
+            nvars = vars.len();
+            let ty = {
+                let mut eg = egg::EGraph::<Expr, risinglight::planner::TypeSchemaAnalysis>::new(risinglight::planner::TypeSchemaAnalysis { catalog: db.catalog.clone() });
+                let id = eg.add_expr(&lhs);
+                eg[id].data.type_.clone()
+            };
+            if let Ok(ty) = ty {
+                found = Some((lhs, ty));
+                break;
+            }
+        }
+        let Some((lhs, ty)) = found else {
+            return Verdict::Discard("ill-typed instantiation");
+        };
+        let analysis = ExprAnalysis { catalog: db.catalog.clone(), config: Default::default(), stat: Statistics::default() };
+        let rhs = match std::panic::catch_unwind(std::panic::AssertUnwindSafe(|| apply_alone(&analysis, rule, &lhs))) {
+            Ok(Some(r)) => r,
+            Ok(None) => {
+                st.class("rule-did-not-fire");
+                return Verdict::Pass;
+            }
+            Err(_) => {
+                let _ = take_panics();
+                return Verdict::Discard("applying the rule panicked (constant folding of the instance)");
+            }
+        };
+        let rname = rule.name.to_string();
+        st.class(&format!("fired:{rname}"));
+        let is_bool = matches!(ty, risinglight::types::DataType::Bool);
+        let mut merged = RecExpr::default();
+        let lroot = append(&mut merged, &lhs);
+        let rroot = append(&mut merged, &rhs);
+        let has_cols = contains(&merged, |n| matches!(n, Expr::Column(_)));
+        let mut ctxs = vec![("proj", expr_contexts_for(&merged, lroot, false), expr_contexts_for(&merged, rroot, false))];
+        if is_bool && has_cols {
+            ctxs.push(("filter", expr_contexts_for(&merged, lroot, true), expr_contexts_for(&merged, rroot, true)));
+        }
+        for (cname, lp, rp) in ctxs {
+            let lo = db.run_plan(&lp).await;
+            let lpan = take_panics();
+            st.eval();
+            let Out::Rows(lrows) = &lo else {
+                st.class("lhs-not-evaluable");
+                continue;
+            };
+            if !lpan.is_empty() {
+                continue;
+            }
+            let ro = db.run_plan(&rp).await;
+            let rpan = take_panics();
+            st.eval();
+            st.class(&format!("executed:{rname}"));
+            let has_null = case.rows.iter().any(|r| r.0.is_none() || r.1.is_none() || r.3.is_none());
+            st.nontrivial((rname.clone(), cname, has_null, case.leaves.iter().take(nvars).map(|l| *l % 24).collect::<Vec<_>>()));
+            let ok = matches!(&ro, Out::Rows(rr) if sorted(rr.clone()) == sorted(lrows.clone()));
+            if !ok {
+                if let Some(k) = ctx.known_sig(&format!("rule:{rname}")) {
+                    *st.known_hits.entry(k.id.clone()).or_default() += 1;
+                    continue;
+                }
+                return fail(
+                    format!("rule:{rname}"),
+                    format!("rule `{rname}` alone changes the result ({cname} context)\n  lhs: {lhs}\n  rhs: {rhs}\n  lhs result: {}\n  rhs result: {} {:?}\n  table t(a,b,c,p,q,s) rows: {:?}", lo.brief(), ro.brief(), rpan, case.rows),
+                );
+            }
+        }
+        Verdict::Pass
+    });
+    match r {
+        Ok(v) => v,
+        Err(p) => fail(format!("harness-panic:{}", panic_sig(&p)), p),
+    }
+}
